@@ -27,7 +27,7 @@ def placed_threshold(cvs):
 def run(chk):
     chk.prove()
     r = gen.rng(chk.seed, "C03")
-    n_cases = 48 if chk.tier == "quick" else 480
+    n_cases = 48 if chk.tier == "quick" else 1600
     terms = []
     eps = float(np.finfo(float).eps)
     for i in range(n_cases):
@@ -123,7 +123,7 @@ def run(chk):
                              dict(ctx, threshold=th, cvs=ctraj["cvs"]))
     # ---- other storage types of the training values (single precision with a common offset, narrow integers): training sees the VALUES;
     #      the run is the same as on the float64 copy, and in particular every iteration still raises the likelihood
-    for j in range(8 if chk.tier == "quick" else 64):
+    for j in range(8 if chk.tier == "quick" else 160):
         sw = (bool(j % 2), True, bool((j // 2) % 2))
         w, mu, var, s, X = gt.gen_training(r, C=2, N=14, scale="unit")
         C, D = mu.shape
